@@ -57,6 +57,10 @@ pub enum Prior {
     /// out), then the receipt timeout fires on its port; masters not listed in `arrival`
     /// stay silent in the final round
     SlaveSilenceTimeout,
+    /// an earlier round in which every foreign master announced twice and the BMCA ran; in the
+    /// final round only the masters listed in `arrival` announce (once) - the others are still
+    /// qualified by their earlier Announces and must still be candidates
+    EarlierRoundAll,
 }
 
 #[derive(Clone, Debug, PartialEq, Serialize, Deserialize)]
@@ -228,6 +232,15 @@ fn execute(c: &Case) -> Result<(Obs, Obs), simcore::report::Caught> {
                     }
                     let _ = receipt_timeout(node, f.port);
                 }
+                Prior::EarlierRoundAll => {
+                    for _ in 0..2 {
+                        for k in 0..c.fms.len() {
+                            let a = peers[k].announce();
+                            let _ = general(node, c.fms[k].port, &a);
+                        }
+                    }
+                    let _ = node.bmca();
+                }
                 Prior::Faulty(p) => {
                     let mut acts = delay_timer(node, p);
                     let (ctx, _) = take_ctx(&mut acts).expect("harness: no pdelay request");
@@ -247,7 +260,7 @@ fn execute(c: &Case) -> Result<(Obs, Obs), simcore::report::Caught> {
                 });
             }
             // final round: every foreign master announces twice, in the given arrival order
-            for round in 0..2 {
+            for round in 0..(if c.prior == Prior::EarlierRoundAll { 1 } else { 2 }) {
                 let _ = round;
                 for &k in &c.arrival {
                     let a = peers[k].announce();
@@ -302,7 +315,7 @@ fn reference(c: &Case, before: &Obs) -> Expect {
     for p in 0..c.n_ports {
         // candidates: the masters that announce (twice) in the final round; with the
         // SlaveSilenceTimeout prior a master left out has been silent for > 4 intervals
-        let ks: Vec<usize> = (0..c.fms.len()).filter(|&k| c.fms[k].port == p && c.arrival.contains(&k)).collect();
+        let ks: Vec<usize> = (0..c.fms.len()).filter(|&k| c.fms[k].port == p && (c.arrival.contains(&k) || c.prior == Prior::EarlierRoundAll)).collect();
         if ks.is_empty() {
             continue;
         }
@@ -588,6 +601,32 @@ pub fn run(tier: Tier) -> i32 {
     }
     run_cases(&mut acc, cases);
     run_metamorphic(&mut acc, meta);
+    // an older Announce of a better master against a fresher one of a worse master
+    let mut cases = vec![];
+    for own in owns().into_iter().step_by(3) {
+        for a in pool(&[0, 1, 4, 5]).iter() {
+            for b in pool(&[0, 1, 4, 5]).iter() {
+                for (sa, sb) in [(0u16, 0u16), (1, 1), (1, 2), (2, 1)] {
+                    for (n_ports, pa, pb) in [(1usize, 0usize, 0usize), (2, 0, 1), (2, 1, 0)] {
+                        for arrival in [vec![0usize], vec![1]] {
+                            cases.push(Case {
+                                own,
+                                n_ports,
+                                master_only: vec![false; n_ports],
+                                slave_only: false,
+                                fms: vec![Fm { attr: *a, steps: sa, sender: SenderRel::Below, port: pa }, Fm { attr: *b, steps: sb, sender: SenderRel::Above, port: pb }],
+                                prior: Prior::EarlierRoundAll,
+                                port_order: (0..n_ports).collect(),
+                                arrival,
+                                quality_change: None,
+                            });
+                        }
+                    }
+                }
+            }
+        }
+    }
+    run_cases(&mut acc, cases);
     // tier 2: two foreign masters on one or two ports, 16-member sub-pool
     let sub16 = pool(&[0, 1, 4, 5]);
     let own16: Vec<Attr> = owns().into_iter().step_by(3).collect();
